@@ -90,6 +90,8 @@ func genProg(t *rapid.T, protos []vt.NamedProto) prog {
 		}
 		if local && p.Burst == 400 {
 			p.Burst = 3000 // no network round trips involved: cheap
+		} else if !local && p.Burst == 400 {
+			p.Burst = 150 // round trips under the race detector are slow
 		}
 		n := rapid.IntRange(2, 4).Draw(t, "workers")
 		for i := 0; i < n; i++ {
@@ -236,8 +238,11 @@ func runProg(p prog, protos []vt.NamedProto) (sameSessionPairs int) {
 	// operations may take long on a loaded machine
 	select {
 	case <-done:
-	case <-time.After(10 * time.Minute):
-		panic("C14 harness: the workers of a program did not finish within 10 minutes\n" + vt.GoroutineDump())
+	case <-time.After(20 * time.Minute):
+		// not a verdict: under the race detector on a loaded machine a burst can simply be slow.
+		// The driver maps this marker to "inconclusive" (exit 2).
+		fmt.Println("VERIF-INFRA: the workers of a C14 program did not finish within 20 minutes\n" + vt.GoroutineDump())
+		os.Exit(3)
 	}
 	for i := range touched {
 		if atomic.LoadInt32(&touched[i]) >= 2 {
@@ -248,7 +253,7 @@ func runProg(p prog, protos []vt.NamedProto) (sameSessionPairs int) {
 }
 
 func TestC14Programs(t *testing.T) {
-	rec := vt.NewRec(t, "C14", "programs", "generated concurrent programs: 2-10 goroutines each running 1-12 documented-safe operations (Call, AsyncCall, inspection of completed calls' status/result/reply metadata, Push in both directions, handler replies, SetID, Swap store/load/range, age getters, Health, CloseNotify, GetSession, RangeSession, CountSession, Close as a last op) on 1-2 shared sessions between two peers, two programs in five as contention bursts (2-4 goroutines repeating 1-3 operations drawn from a per-program focus set of 1-3 kinds, 40 / 400 times, 3000 times when no network round trip is involved), protocols raw/json/pb, with/without a filter pipe, a second process runs the same generator with run-logging at INFO and PrintDetail; oracle: the Go race detector (binary built with -race), reports are parsed by the driver and count only if both accesses are in framework code; non-trivial = >=2 goroutines touched the same session (measured); distinct by program")
+	rec := vt.NewRec(t, "C14", "programs", "generated concurrent programs: 2-10 goroutines each running 1-12 documented-safe operations (Call, AsyncCall, inspection of completed calls' status/result/reply metadata, Push in both directions, handler replies, SetID, Swap store/load/range, age getters, Health, CloseNotify, GetSession, RangeSession, CountSession, Close as a last op) on 1-2 shared sessions between two peers, two programs in five as contention bursts (2-4 goroutines repeating 1-3 operations drawn from a per-program focus set of 1-3 kinds, 40 / 150 times, 3000 times when no network round trip is involved), protocols raw/json/pb, with/without a filter pipe, a second process runs the same generator with run-logging at INFO and PrintDetail; oracle: the Go race detector (binary built with -race), reports are parsed by the driver and count only if both accesses are in framework code; non-trivial = >=2 goroutines touched the same session (measured); distinct by program")
 	protos := vt.StreamProtos()
 	rapid.Check(t, func(t *rapid.T) {
 		p := genProg(t, protos)
